@@ -165,6 +165,15 @@ def units(prog):
     us.append(CodecUnit('ExtCommunity.construct', EC + 'construct', c_args,
                         lambda it, v: ('ret', A.attr(16, enc(*it._ec))), props=(ID, 'C06', 'C08')))
 
+    # accumulation: each element's octets are appended to what was accumulated before (any list length, any position)
+    from .framing_units import acc_step_unit
+
+    def step_elem(it):
+        kind = pick_kind(it)
+        f = fields(it, kind)
+        return translated(kind, f), enc(kind, f)
+    us.append(acc_step_unit('ExtCommunity.construct[step]', EC + 'construct', 'ext_community_hex', step_elem, (ID, 'C06', 'C08')))
+
     # the view's text -> item translation (real string handling of v1.send_update_message)
     def build(it):
         kind = pick_kind(it)
@@ -220,7 +229,8 @@ def run(tier, seed, only=None):
         u.props = (ID,)
         u.clause_props = None
         run.run_unit(u, prog)
-        run.vacuity_check(u)
+        if u.kind != 'step':
+            run.vacuity_check(u)
     run.triage_all(known)
     run.replay_findings()
     run.witness_check(cap=None if tier == 'thorough' else 40)
